@@ -11,7 +11,7 @@ import (
 
 func init() {
 	register("C14",
-		"Decides the structural premises of 'a dial ends in a connection or a clean error': every error exit taken after a descriptor was created closes it (sysSocket, socket, the self-connect retry loop), success transfers it; a failed registration closes the connection; the temporary poller slot allocated for connect is always paired with the deferred Free, the context branch of WaitWrite detaches, and onwrite detaches before signalling; context errors on the dial path are mapped through mapErr, whose deadline value has a Timeout() method that returns true; the write/close triggers of the poll descriptor are closed at most once. Not decided: elapsed time, usability of the returned connection, the kernel's connect behaviour.",
+		"Decides the structural premises of 'a dial ends in a connection or a clean error': every error exit taken after a descriptor was created closes it (sysSocket, socket, the self-connect retry loop), success transfers it; a failed registration closes the connection; the temporary poller slot allocated for connect is always paired with the deferred Free, the context branch of WaitWrite detaches, and onwrite detaches before signalling; context errors on the dial path are mapped through mapErr, whose deadline value has a Timeout() method that returns true; the write/close triggers of the poll descriptor are closed at most once. sysSocket returns only non-blocking descriptors; pollDesc.onhup only signals; after ctx.Done() WaitWrite returns an error on every path. Not decided: elapsed time, usability of the returned connection, the kernel's connect behaviour.",
 		[]string{"syscall wrappers return err != nil exactly when no descriptor was produced"},
 		func(r *Run) {
 			cfgs := []string{"linux"}
